@@ -5,6 +5,8 @@ import SafeNet.Model.UnitFile
 Line protocol of `drv_upgrade` (inputs only):
   `cfg  k=v k=v …`     → install and upgrade argument lists and settings of the model
   `accept k=v k=v …`   → verdict of clap's tokeniser + the clap-subset parser on the STRINGS of both argument lists
+  `unitprobe k=v …`    → what systemd starts for both definitions as the shipped backend renders them (`ok`/`rej`/
+                          `exp`/`prog`), plus owner and home-network switch as antnode reads the install unit
   `lexprobe k=v …`     → the same, coarse (`ok`/`rej`), plus what the install strings were tokenised to:
                           number of peers / contact URLs, the owner (values that are not lex-safe)
 Keys are dotted source expressions of `add_node` (`options.home_network`, `metrics_free_port`, …) and
@@ -203,6 +205,33 @@ def showRestart (raw : List (String × String)) (data : Valuation) (regenv : Opt
         " levels=" ++ showLevel (upgradeLevels (replaceRecordOf dataU)).1 ++ "/" ++ showLevel (upgradeLevels (replaceRecordOf dataU)).2
   | none => ""
 
+def programOfSettings (settings : List (String × Val)) : String :=
+  match settings.lookup "program" with | some v => asWord Gen.Upgrade.evmDisplay v | none => ""
+
+/-- what systemd starts for the definition rendered by the shipped backend: `exp` (specifier / variable / escape /
+unbalanced quote / lone `;`), `prog` (another executable path), else `f` of antnode's parse of the re-tokenised words -/
+def unitVerdictWith (f : Except PErr Parsed → String) (settings : List (String × Val)) (items : List Item) : String :=
+  let program := programOfSettings settings
+  match unitCommand (fixRoot (execStartValue program (argv items))) with
+  | none => "exp"
+  | some (p, args) => if p ≠ fixRoot program then "prog" else f (parseArgStrings args)
+
+def unitVerdict := unitVerdictWith fun r => match r with | .ok _ => "ok" | .error e => "err:" ++ errClass e
+def unitCoarse := unitVerdictWith fun r => match r with | .ok _ => "ok" | .error _ => "rej"
+
+def unitDetails (settings : List (String × Val)) (items : List Item) : String :=
+  let program := programOfSettings settings
+  match unitCommand (fixRoot (execStartValue program (argv items))) with
+  | some (p, args) =>
+    if p ≠ fixRoot program then "owner=- home=-" else
+    match parseArgStrings args with
+    | .ok pr =>
+      -- the harness reads the owner from a dump with all white space removed
+      "owner=" ++ (match pr.top "owner" with | .one s => esc (s.replace " " "") | _ => "-") ++
+      " home=" ++ (match pr.top "home_network" with | .set => "T" | _ => "F")
+    | .error _ => "owner=- home=-"
+  | none => "owner=- home=-"
+
 def step (_ : Unit) (ws : List String) : Unit × String :=
   match ws with
   | "cfg" :: rest =>
@@ -223,7 +252,17 @@ def step (_ : Unit) (ws : List String) : Unit × String :=
     | none => ((), "bad-op")
     | some raw =>
       let (σ, data) := setup raw 1
-      ((), "I:" ++ verdict (buildInstall σ) ++ " U:" ++ verdict (buildUpgrade data))
+      ((), "I:" ++ verdict (buildInstall σ) ++ " U:" ++ verdict (buildUpgrade data) ++
+           " XI:" ++ unitVerdict (installSettings σ) (buildInstall σ) ++
+           " XU:" ++ unitVerdict (upgradeSettings data) (buildUpgrade data))
+  | "unitprobe" :: rest =>
+    match rest.mapM splitKV with
+    | none => ((), "bad-op")
+    | some raw =>
+      let (σ, data) := setup raw 1
+      ((), "XI:" ++ unitCoarse (installSettings σ) (buildInstall σ) ++
+           " XU:" ++ unitCoarse (upgradeSettings data) (buildUpgrade data) ++ " " ++
+           unitDetails (installSettings σ) (buildInstall σ))
   | "lexprobe" :: rest =>
     match rest.mapM splitKV with
     | none => ((), "bad-op")
@@ -269,6 +308,15 @@ def singles : List (List String) := [
   ["options.evm_network=e:ArbitrumOne", "options.peers_args.disable_mainnet_contacts=T"],
   ["options.evm_network=e:ArbitrumOne", "options.peers_args.ignore_cache=T"],
   ["options.evm_network=e:ArbitrumOne", "options.peers_args.bootstrap_cache_dir=s:$R/cache"],
+  -- audit round 6: user-mode add --metrics-port --owner, started, restarted by the daemon with the peer id retained
+  ["options.evm_network=e:ArbitrumOne", "options.user_mode=T", "metrics_free_port=s:13001", "options.owner=s:bob",
+   "@listen=s:4242", "@drestart=s:retain"],
+  -- a root add (service user set), started, replaced by the daemon
+  ["options.evm_network=e:ArbitrumOne", "options.user=s:root", "options.owner=s:bob", "@listen=s:4242", "@drestart=s:replace",
+   "~.new.new_node_number=s:2", "~.new.new_service_name=s:antnode2", "~.new.data_dir_path=s:$R/data/antnode2",
+   "~.new.log_dir_path=s:$R/log/antnode2", "~.new.antnode_path=s:$R/data/antnode2/antnode"],
+  -- `--bootstrap-cache-dir` given on antctl's own command line, user mode (no default)
+  ["options.evm_network=e:ArbitrumOne", "options.user_mode=T", "@cli_cache=s:$R/my-cache"],
   ["options.evm_network=e:ArbitrumSepolia"],
   ["options.evm_network=e:Custom", "options.evm_network.rpc_url_http=s:http://localhost:8545/",
    "options.evm_network.payment_token_address=s:0x5FbDB2315678afecb367f032d93F642f64180aa3",
@@ -282,8 +330,24 @@ def differs (ws : List String) : Bool :=
       let (σ, data) := setup raw n
       let i := buildInstall σ
       let u := buildUpgrade data
-      !(i.all u.contains && u.all i.contains && i.length == u.length) ||
+      let sameItems := fun (a b : List Item) => a.all b.contains && b.all a.contains && a.length == b.length
+      let restartDiffers := match raw.lookup "@drestart" with
+        | some "s:retain" =>
+          !(sameItems (buildRestartRetain data) u) || restartRetainLevels data != upgradeLevels data
+        | some _ =>
+          let keep := fun (l : List Item) => l.filter fun it =>
+            !(["root-dir", "log-output-dest", "port", "metrics-server-port"].contains (it.flag.getD ""))
+          !(sameItems (keep (buildRestartReplace data)) (keep u))
+        | none => false
+      let cliLost := match optOf (caseTable raw) raw "@cli_cache" with
+        | some d => !(i.contains ⟨some "bootstrap-cache-dir", .one d.show⟩)
+        | none => false
+      -- the pinned listener port is the one purposeful difference of an upgrade
+      let noPort := fun (l : List Item) => if (raw.lookup "@listen").isSome then l.filter (fun it => it.flag != some "port") else l
+      !(sameItems (noPort i) (noPort u)) ||
       (installSettings σ != upgradeSettings data) ||
+      upgradeLevels data != (installLevel σ, installLevel σ) ||
+      restartDiffers || cliLost ||
       verdict i != "ok" || verdict u != "ok"
 
 def searchCandidates : List String :=
